@@ -351,7 +351,7 @@ def run_tlc(spec, cfg, env, workers=8, timeout=3000, metaname="tlc", extra=(), x
         if m:
             res["states"] = res["distinct"] = int(m.group(1))
     res["ok"] = ok
-    if not ok and "is violated" not in out and "Invariant" not in out:
+    if not ok and "is violated" not in out and "Invariant" not in out and "Postcondition" not in out:
         raise ToolError("TLC failed on %s (rc %s):\n%s\n%s" % (spec, p.returncode, out[-4000:], p.stderr[-2000:]))
     return res
 
